@@ -115,6 +115,7 @@ type cg struct {
 	fresh    bool
 	inLambda int
 	usesLatch bool
+	alias    map[string]string // inside a single-field update block: reads of that field refer to the running value
 	reads    []string // register fields read so far in the current statement (outside lambdas they are read before later calls)
 }
 
@@ -361,6 +362,9 @@ func (g *cg) expr(e ast.Expr, want kind, ind string) (string, kind) {
 				return "latch", kLatch
 			}
 			if k, ok := regFields[f]; ok {
+				if a, ok := g.alias[f]; ok {
+					return a, k
+				}
 				g.needC(ind)
 				g.reads = append(g.reads, f)
 				return "c." + f, k
@@ -975,6 +979,9 @@ func (g *cg) stmt(s ast.Stmt, ind string) {
 		if mentions(x.Cond, "onWDM", "OnWDM", "OnPC") {
 			return
 		}
+		if g.pureIfFieldSeq(x, ind) {
+			return
+		}
 		c := g.cond(x.Cond, ind)
 		if g.pureIf(x, c, ind) {
 			return
@@ -1268,6 +1275,110 @@ func (g *cg) pureBlock(list []ast.Stmt, obj *types.Object, ind string, dry bool)
 		sb.WriteString(g.localName(*obj) + ")")
 	}
 	return sb.String(), true
+}
+
+// fieldBlock: a statement list that only updates one non-flag register field F — `cpu.F = e`, `cpu.F op= e`, `cpu.F++` (call-free) and
+// `if c { … }` without else over such lists — as a Lean expression for the final value of F, with `v` holding the running value
+func (g *cg) fieldBlock(list []ast.Stmt, field *string, v string, ind string, dry bool) (string, bool) {
+	var sb strings.Builder
+	sb.WriteString("(")
+	opTok := map[token.Token]token.Token{token.ADD_ASSIGN: token.ADD, token.SUB_ASSIGN: token.SUB, token.AND_ASSIGN: token.AND,
+		token.OR_ASSIGN: token.OR, token.XOR_ASSIGN: token.XOR}
+	for _, st := range list {
+		switch a := st.(type) {
+		case *ast.AssignStmt:
+			if len(a.Lhs) != 1 || len(a.Rhs) != 1 {
+				return "", false
+			}
+			f, ok := g.cpuField(a.Lhs[0])
+			if !ok || flagFields[f] || (*field != "" && f != *field) || !g.callFree(a.Rhs[0]) {
+				return "", false
+			}
+			fk, ok := regFields[f]
+			if !ok || (fk != kU8 && fk != kU16) {
+				return "", false
+			}
+			var rhs ast.Expr = a.Rhs[0]
+			if a.Tok != token.ASSIGN {
+				op, ok := opTok[a.Tok]
+				if !ok {
+					return "", false
+				}
+				be := &ast.BinaryExpr{X: a.Lhs[0], Op: op, Y: a.Rhs[0], OpPos: a.TokPos}
+				g.p.info.Types[be] = types.TypeAndValue{Type: g.p.info.TypeOf(a.Lhs[0])}
+				rhs = be
+			}
+			*field = f
+			if !dry {
+				e, k := g.expr(rhs, fk, ind)
+				if k != fk {
+					g.die(a, "field %s : %s assigned %s", f, fk.lean(), k.lean())
+				}
+				fmt.Fprintf(&sb, "let %s := %s; ", v, e)
+			}
+		case *ast.IncDecStmt:
+			f, ok := g.cpuField(a.X)
+			if !ok || flagFields[f] || (*field != "" && f != *field) {
+				return "", false
+			}
+			if fk := regFields[f]; fk != kU8 && fk != kU16 {
+				return "", false
+			}
+			*field = f
+			if !dry {
+				op := "+"
+				if a.Tok == token.DEC {
+					op = "-"
+				}
+				fmt.Fprintf(&sb, "let %s := %s %s 1; ", v, v, op)
+			}
+		case *ast.IfStmt:
+			if a.Else != nil || a.Init != nil || !g.callFree(a.Cond) {
+				return "", false
+			}
+			inner, ok := g.fieldBlock(a.Body.List, field, v, ind, dry)
+			if !ok {
+				return "", false
+			}
+			if !dry {
+				fmt.Fprintf(&sb, "let %s := (if %s then %s else %s); ", v, g.cond(a.Cond, ind), inner, v)
+			}
+		default:
+			return "", false
+		}
+	}
+	if *field == "" {
+		return "", false
+	}
+	if !dry {
+		sb.WriteString(v + ")")
+	}
+	return sb.String(), true
+}
+
+// pureIfFieldSeq: `if c { … }` (no else) whose body only updates one register field (see fieldBlock) becomes one assignment
+// `F := if c then (…) else F` evaluated on the current registers
+func (g *cg) pureIfFieldSeq(x *ast.IfStmt, ind string) bool {
+	if x.Else != nil || x.Init != nil || !g.callFree(x.Cond) {
+		return false
+	}
+	field := ""
+	if _, ok := g.fieldBlock(x.Body.List, &field, "v_", ind, true); !ok {
+		return false
+	}
+	if mentions(x.Cond, "onWDM", "OnWDM", "OnPC") {
+		return false
+	}
+	g.assignFields(ind, []string{field}, []func() string{func() string {
+		old := g.alias
+		g.alias = map[string]string{field: "v_"}
+		f2 := field
+		body, _ := g.fieldBlock(x.Body.List, &f2, "v_", ind, false)
+		c := g.cond(x.Cond, ind)
+		g.alias = old
+		return fmt.Sprintf("(let v_ := c.%s; if %s then %s else v_)", field, c, body)
+	}})
+	return true
 }
 
 // pureIfSeq: `if c { … }` (no else) whose body only updates one local (see pureBlock) becomes `v := if c then (…) else v`
@@ -1617,7 +1728,8 @@ func (g *cg) translate(fn *cgFunc) {
 		if k != rk[0] {
 			g.die(fd, "pure function result kind")
 		}
-		fn.text = fmt.Sprintf("%s\ndef %s %s : %s :=\n  %s\n", hdr, fn.name, strings.Join(params, " "), res, v)
+		// reducible: a pure helper occurs inside `if` conditions, whose Decidable instances must stay type-correct when the helper is rewritten
+		fn.text = fmt.Sprintf("%s\n@[reducible] def %s %s : %s :=\n  %s\n", hdr, fn.name, strings.Join(params, " "), res, v)
 		return
 	}
 	// Go parameters are variables: a parameter that is assigned gets a mutable shadow
